@@ -389,3 +389,53 @@ Proof.
                | exists [XBind CSmtp; XFwd CSmtp]; eexists; split; [vm_compute; reflexivity|vm_compute; discriminate]
                | exists [XBind CPop3; XFwd CPop3]; eexists; split; [vm_compute; reflexivity|vm_compute; discriminate] ].
 Qed.
+
+(** * No listener is left open *)
+
+(** A listener's Start that has bound its port and not yet closed it. *)
+Definition listening (p : bphase) : bool := match p with BBound | BReady => true | _ => false end.
+
+(** From every reachable state — in particular when shutdown is requested before or during start-up
+    (context already cancelled when Start runs, or cancelled at once after another listener failed to
+    bind) — once the context is cancelled, letting each server's Start run to its end leaves NO port
+    bound: every listener is closed, or never bound. As coded a Start that finds the context already
+    cancelled still binds, reports ready and then closes its listener at once; a Start that returned
+    between the bind and that close would leave the port listening for the rest of the process. *)
+Theorem no_listener_left_open :
+  forall e ren acts y,
+    arun pinned_shape e (asm_init pinned_shape ren) acts = Some y -> a_cancel y = true ->
+    exists y', arun pinned_shape e y (rest_acts e y CWeb ++ rest_acts e y CSmtp ++ rest_acts e y CPop3) = Some y' /\
+               listening (p_web y') = false /\ listening (p_smtp y') = false /\ listening (p_pop3 y') = false /\
+               p_web y' <> BInit /\ p_smtp y' <> BInit /\ p_pop3 y' <> BInit.
+Proof.
+  intros e ren acts y R C.
+  assert (ST : forall c, phase_of y c <> BAbsent).
+  { intros c. eapply started_run; [exact R|]. destruct c; cbn; discriminate. }
+  (* one listener at a time; the others' phases, hence their rest_acts, are untouched *)
+  assert (ONE : forall y0 c, a_cancel y0 = true -> phase_of y0 c <> BAbsent ->
+            exists y1, arun pinned_shape e y0 (rest_acts e y0 c) = Some y1 /\ listening (phase_of y1 c) = false /\
+                       phase_of y1 c <> BInit /\ (forall c0, c0 <> c -> phase_of y1 c0 = phase_of y0 c0) /\ a_cancel y1 = true).
+  { intros y0 c C0 NA. unfold rest_acts.
+    destruct c; cbn [phase_of] in *;
+      [destruct (p_web y0) eqn:P | destruct (p_smtp y0) eqn:P | destruct (p_pop3 y0) eqn:P]; try congruence;
+      try (destruct (fails e _) eqn:F);
+      cbn [arun astep phase_of set_phase p_web p_smtp p_pop3 a_cancel]; rewrite ?P, ?F, ?C0;
+      cbn [arun astep phase_of set_phase p_web p_smtp p_pop3 a_cancel]; rewrite ?C0;
+      cbn [arun astep phase_of set_phase p_web p_smtp p_pop3 a_cancel];
+      eexists; (split; [reflexivity|]); cbn [phase_of p_web p_smtp p_pop3 a_cancel listening];
+      rewrite ?P; repeat split; auto; try discriminate; intros c0 N; destruct c0; cbn; congruence. }
+  destruct (ONE y CWeb C (ST CWeb)) as (y1 & R1 & L1 & I1 & O1 & C1).
+  assert (RA2 : rest_acts e y1 CSmtp = rest_acts e y CSmtp) by (unfold rest_acts; rewrite (O1 CSmtp) by discriminate; reflexivity).
+  assert (ST1 : phase_of y1 CSmtp <> BAbsent) by (rewrite (O1 CSmtp) by discriminate; apply ST).
+  destruct (ONE y1 CSmtp C1 ST1) as (y2 & R2 & L2 & I2 & O2 & C2).
+  assert (RA3 : rest_acts e y2 CPop3 = rest_acts e y CPop3).
+  { unfold rest_acts. rewrite (O2 CPop3), (O1 CPop3) by discriminate. reflexivity. }
+  assert (ST2 : phase_of y2 CPop3 <> BAbsent) by (rewrite (O2 CPop3), (O1 CPop3) by discriminate; apply ST).
+  destruct (ONE y2 CPop3 C2 ST2) as (y3 & R3 & L3 & I3 & O3 & C3).
+  exists y3. split.
+  - rewrite arun_app, R1, arun_app, <- RA2, R2, <- RA3. exact R3.
+  - assert (W : phase_of y3 CWeb = phase_of y1 CWeb).
+    { rewrite (O3 CWeb) by discriminate. apply (O2 CWeb). discriminate. }
+    assert (Sm : phase_of y3 CSmtp = phase_of y2 CSmtp) by (apply (O3 CSmtp); discriminate).
+    rewrite <- W in L1, I1. rewrite <- Sm in L2, I2. cbn [phase_of] in *. repeat split; auto.
+Qed.
